@@ -51,7 +51,9 @@ pub fn check(c: &Case, ctx: &mut Ctx) -> Result<(), Failure> {
         *prev = Some(*bar);
     };
     if let Some((seed, len, regime, base)) = &c.gen_prefix {
-        let mut gen = crate::props::c13::Gen::new(*seed, *regime, base.0, 2 + n);
+        // regime >= 100 encodes a saw-tooth (regime 4) of period regime - 100
+        let (rg, saw) = if *regime >= 100 { (4usize, *regime - 100) } else { (*regime, 2 + n) };
+        let mut gen = crate::props::c13::Gen::new(*seed, rg, base.0, saw);
         fp.u(*seed);
         fp.u(*len as u64);
         for _ in 0..*len {
@@ -442,6 +444,30 @@ pub fn run(g: &mut Global) {
             let mut g2 = crate::props::c13::Gen::new(sd ^ 0x5AFF, 0, 85.18, 2 + n);
             let suffix: Vec<RawBar> = (0..w + [0usize, 1, n][(sd % 3) as usize]).map(|_| g2.bar()).collect();
             Case { cfg: cfg_small(kind, n), scalar: i % 2 == 0, prefix: vec![], suffix, gen_prefix: Some((sd, plen, [1usize, 0, 2, 4][(sd >> 4) as usize % 4], X(85.18))) }
+        },
+        &check,
+    );
+    // forgetting after a long *periodic* life: a saw-tooth of period 2..n+3 for several hundred thousand inputs, then
+    // the common suffix — a running sum whose rounding error is biased per period drifts ~t^2 away from what a fresh
+    // instance computes from the last n inputs (the WMA defect of section 6 seen from this property)
+    const SP: [usize; 7] = [2, 3, 5, 7, 9, 12, 14];
+    const SKD: [Kind; 5] = [Kind::Sma, Kind::Wma, Kind::Sd, Kind::Bb, Kind::Mfi];
+    let splen = g.tier.pick(600_000usize, 3_000_000usize);
+    g.exhaustive(
+        "sawtooth_prefix",
+        5 * 7 * 3,
+        &move |i| {
+            let kind = SKD[(i % 5) as usize];
+            let r = i / 5;
+            let n = SP[(r % 7) as usize];
+            let saw = [2usize, 4, n + 1][(r / 7) as usize % 3];
+            let mut s = seed ^ (i + 61).wrapping_mul(0xA0761D6478BD642F);
+            let sd = splitmix(&mut s);
+            let w = kind.memory(n).unwrap();
+            let base = [0.37, 85.18, 100.1][(sd % 3) as usize];
+            let mut g2 = crate::props::c13::Gen::new(sd ^ 0x77, 4, base, saw);
+            let suffix: Vec<RawBar> = (0..w + [0usize, 1, n][(sd % 3) as usize]).map(|_| g2.bar()).collect();
+            Case { cfg: cfg_small(kind, n), scalar: kind != Kind::Mfi && i % 2 == 0, prefix: vec![], suffix, gen_prefix: Some((sd, splen, 100 + saw, X(base))) }
         },
         &check,
     );
